@@ -5,10 +5,11 @@ Translates, from the Python AST of the current source, into Gallina over coq/rst
 (exception monad `gres`, call table g_*) and the primitives of RstrPrim / RstrModel:
   _rrulestr._handle_int, _handle_int_list, _handle_FREQ, _handle_WKST, _handle_UNTIL,
   _handle_BYWEEKDAY, the getattr dispatch table (from the class's `_handle_*` attribute names and
-  aliases), _parse_rfc_rrule, the tables _freq_map / _weekday_map, and rrule.__str__;
-  the remaining part of _parse_rfc (unfold loop, TZID collection, property loop, set assembly) is
-  hand-modelled and PINNED: a hash of its normalised AST is compared with the pinned value below,
-  any change aborts the translator.
+  aliases), _parse_rfc_rrule, _parse_rfc (class RfcFn; the unfold while-loop and the TZID regex
+  statement are recognised verbatim and mapped to unfold_lines / tzid_findall), the tables
+  _freq_map / _weekday_map / FREQNAMES, and rrule.__str__ (class StrFn);
+  _parse_date_value and _parse_date are hand-modelled and PINNED: a hash of their normalised AST is
+  compared with the pinned value below, any change aborts the translator.
 coq/rstr/RstrGenThm.v proves gen_* = hand model for all inputs; props/C13.v states C13_gen_*.
 
 ACCEPTED SUBSET (anything else raises TranslateError -> exit 1 -> common.regenerate() poisons
@@ -54,7 +55,6 @@ OUT = os.environ.get("GEN_RSTR_OUT") or os.path.join(VERIF, "coq", "gen", "RstrG
 
 # pinned AST hashes of the hand-modelled remainder (see pin_check)
 PINS = {
-    "_parse_rfc": "ff261353f58c935e",
     "_parse_date_value": "3f078aabd2c63656",
     "_parse_date": "f5fb7346dd6c4795",
 }
@@ -979,6 +979,432 @@ def translate_str(mod, tables):
     fn.comp = comp
     return fn.comp(body, env, lambda e2: fail("__str__ falls off its end", f))
 
+
+# ---------------------------------------------------------------------------------- _rrulestr._parse_rfc
+
+UNFOLD_IDIOM = """
+lines = s.splitlines()
+i = 0
+while i < len(lines):
+    line = lines[i].rstrip()
+    if not line:
+        del lines[i]
+    elif i > 0 and line[0] == " ":
+        lines[i-1] += line[1:]
+        del lines[i]
+    else:
+        i += 1
+"""
+TZID_IDIOM = """
+TZID_NAMES = dict(map(
+    lambda x: (x.upper(), x),
+    re.findall('(?i)TZID=(?P<name>[^:;]+)[:;]', '\\n'.join(lines))
+))
+"""
+LAZY_IMPORT2 = """
+if not parser and (rdatevals or exdatevals):
+    from dateutil import parser
+"""
+
+
+def reads_before_write(stmts, name):
+    """may `name` be read in stmts before it is (definitely) re-bound?  conservative"""
+    for st in stmts:
+        if isinstance(st, ast.For):
+            if any(isinstance(n, ast.Name) and n.id == name for n in ast.walk(st.iter)):
+                return True
+            if isinstance(st.target, ast.Name) and st.target.id == name:
+                continue                      # re-bound by the loop; body reads the new value; afterwards unknown
+            if reads_before_write(st.body, name):
+                return True
+            continue
+        if isinstance(st, ast.Assign) and len(st.targets) == 1 and isinstance(st.targets[0], ast.Name) \
+                and st.targets[0].id == name:
+            if any(isinstance(n, ast.Name) and n.id == name for n in ast.walk(st.value)):
+                return True
+            return False
+        if isinstance(st, ast.If):
+            if any(isinstance(n, ast.Name) and n.id == name for n in ast.walk(st.test)):
+                return True
+            if reads_before_write(st.body, name) or reads_before_write(st.orelse, name):
+                return True
+            continue
+        if any(isinstance(n, ast.Name) and n.id == name and isinstance(n.ctx, ast.Load) for n in ast.walk(st)):
+            return True
+    return False
+
+
+def same_ast(stmts, text):
+    want = ast.parse(text).body
+    return len(stmts) == len(want) and all(ast.dump(a) == ast.dump(b) for a, b in zip(stmts, want))
+
+
+RSET_METHODS = {"rrule": ("rset#rr", "rule"), "rdate": ("rset#rd", "dt"), "exrule": ("rset#xr", "rule"),
+                "exdate": ("rset#xd", "dt")}
+
+
+class RfcFn(Fn):
+    """_parse_rfc -> gen_parse_rfc (ev : env) (o : opts) (s : str) : gres result.
+    Additional accepted forms (beyond Fn): `if c: x = <const>` (re-binding, no duplication);
+    `if c: raise`; the UNFOLD idiom (exact AST: the while loop with in-place deletion -> unfold_lines
+    (splitlines s) []) against `lines = s.split()` (-> words); the TZID idiom (exact AST incl. the
+    regular expression -> tzid_findall (join "\\n" lines)); `x = [e.upper() for e in x]`;
+    boolean conditions (not / and / or, len(x) == / > / != <const>, find == -1, startswith(<const>),
+    truth values of lists / strings / optional datetime); `for x in e:` with several loop-carried
+    variables (-> gfoldM over a tuple; `continue`; `x.append(e)`, `x.extend(e)`);
+    `if <find == -1>: a = ..; b = .. else: a, b = s.split(c, 1)` (joined without duplication);
+    `for p in ps: raise` (raise when non-empty); `for p in ps: if p != <const>: raise`;
+    `rset = rruleset(cache=cache)`, rset.rrule / rdate / exrule / exdate, `return rset`;
+    `return self._parse_rfc_rrule(..)`; the lazy-import no-op."""
+
+    def __init__(self, tables):
+        Fn.__init__(self, tables, "rfc")
+
+    # ---- pure boolean conditions
+    def bexp(self, c, env):
+        if isinstance(c, ast.Name):
+            t, ty = env[c.id][0], env[c.id][1]
+            if ty == "bool":
+                return t
+            if ty in ("liststr", "listdt", "listrule", "str"):
+                return "negb (isnil %s)" % t
+            if ty == "optdt":
+                return "negb (isNone %s)" % t
+            fail("truth value of " + ty, c)
+        if isinstance(c, ast.UnaryOp) and isinstance(c.op, ast.Not):
+            return "negb (%s)" % self.bexp(c.operand, env)
+        if isinstance(c, ast.BoolOp):
+            op = " && " if isinstance(c.op, ast.And) else " || "
+            return "(" + op.join("(%s)" % self.bexp(v, env) for v in c.values) + ")"
+        if isinstance(c, ast.Compare) and len(c.ops) == 1:
+            op, l, r = c.ops[0], c.left, c.comparators[0]
+            if isinstance(l, ast.Call) and isinstance(l.func, ast.Name) and l.func.id == "len" and len(l.args) == 1 \
+                    and isinstance(l.args[0], ast.Name) and isinstance(r, ast.Constant) and isinstance(r.value, int):
+                t = env[l.args[0].id][0]
+                n = "(Z.of_nat (List.length %s))" % t
+                if isinstance(op, ast.Eq):
+                    return "%s =? %d" % (n, r.value)
+                if isinstance(op, ast.NotEq):
+                    return "negb (%s =? %d)" % (n, r.value)
+                if isinstance(op, ast.Gt):
+                    return "%d <? %s" % (r.value, n)
+            if isinstance(op, (ast.Eq, ast.NotEq)) and isinstance(l, ast.Call) and isinstance(l.func, ast.Attribute) \
+                    and l.func.attr == "find" and len(l.args) == 1 and is_const_str(l.args[0], 1) \
+                    and isinstance(r, ast.UnaryOp) and isinstance(r.op, ast.USub) and isinstance(r.operand, ast.Constant) \
+                    and r.operand.value == 1 and isinstance(l.func.value, ast.Name) and env[l.func.value.id][1] == "str":
+                b = "has_char %d %s" % (ord(l.args[0].value), env[l.func.value.id][0])
+                return "negb (%s)" % b if isinstance(op, ast.Eq) else b
+            if isinstance(op, (ast.Eq, ast.NotEq)) and is_const_str(r) and isinstance(l, ast.Name) and env[l.id][1] == "str":
+                b = "leqb %s %s" % (env[l.id][0], lit(r.value))
+                return "negb (%s)" % b if isinstance(op, ast.NotEq) else b
+        if isinstance(c, ast.Call) and isinstance(c.func, ast.Attribute) and c.func.attr == "startswith" \
+                and len(c.args) == 1 and is_const_str(c.args[0]) and isinstance(c.func.value, ast.Name) \
+                and env[c.func.value.id][1] == "str":
+            return "startswith %s %s" % (lit(c.args[0].value), env[c.func.value.id][0])
+        if isinstance(c, ast.Call) and isinstance(c.func, ast.Attribute) and c.func.attr == "strip" and not c.args \
+                and isinstance(c.func.value, ast.Name) and env[c.func.value.id][1] == "str":
+            return "negb (isnil (strip %s))" % env[c.func.value.id][0]
+        fail("boolean condition (_parse_rfc)", c)
+
+    # ---- expressions
+    def ex(self, e, env):
+        if isinstance(e, ast.Call) and isinstance(e.func, ast.Attribute) and isinstance(e.func.value, ast.Name) \
+                and e.func.value.id == "self":
+            m = e.func.attr
+            kws = {k.arg: (k.value.id if isinstance(k.value, ast.Name) else None) for k in e.keywords}
+            if m == "_parse_rfc_rrule" and len(e.args) == 1:
+                extra = dict(kws)
+                cache = extra.pop("cache", None)
+                if extra != {"dtstart": "dtstart", "ignoretz": "ignoretz", "tzinfos": "tzinfos"} or cache not in (None, "cache"):
+                    fail("_parse_rfc_rrule keywords", e)
+                pre, t, ty = self.ex(e.args[0], env)
+                if ty != "str":
+                    fail("_parse_rfc_rrule line", e)
+                v = self.fresh()
+                self.last_cache = env["cache"][0] if cache else "false"
+                return pre + [(v, "gen_rule ev %s %s %s" % (env["ignoretz"][0], t, env["dtstart"][0]))], v, "rule"
+            if m == "_parse_date" and [getattr(a, "id", None) for a in e.args[1:]] == ["ignoretz", "tzinfos"] and not kws:
+                pre, t, ty = self.ex(e.args[0], env)
+                if ty != "str":
+                    fail("_parse_date argument", e)
+                v = self.fresh()
+                return pre + [(v, "g_parse %s %s" % (env["ignoretz"][0], t))], v, "dt"
+            if m == "_parse_date_value" and not kws and [getattr(a, "id", None) for a in e.args[2:]] == \
+                    ["TZID_NAMES", "ignoretz", "tzids", "tzinfos"] and env.get("TZID_NAMES", (0, 0))[1] == "names":
+                p1, t1, ty1 = self.ex(e.args[0], env)
+                p2, t2, ty2 = self.ex(e.args[1], env)
+                if (ty1, ty2) != ("str", "liststr"):
+                    fail("_parse_date_value arguments", e)
+                v = self.fresh()
+                return p1 + p2 + [(v, "g_of_res (parse_date_value o %s %s %s)" % (env["TZID_NAMES"][0], t1, t2))], v, "listdt"
+            fail("method call outside the call table", e)
+        if isinstance(e, ast.Subscript) and isinstance(e.value, ast.Name) and e.value.id in env \
+                and env[e.value.id][1] in ("liststr", "listdt"):
+            t, ty = env[e.value.id][0], env[e.value.id][1]
+            sl = e.slice
+            if isinstance(sl, ast.Constant) and isinstance(sl.value, int) and sl.value >= 0:
+                v = self.fresh()
+                return [(v, "g_nth %s %d" % (t, sl.value))], v, {"liststr": "str", "listdt": "dt"}[ty]
+            if isinstance(sl, ast.Slice) and sl.step is None and sl.upper is None and isinstance(sl.lower, ast.Constant) \
+                    and sl.lower.value == 1:
+                return [], "(tl %s)" % t, ty
+        if isinstance(e, ast.Call) and isinstance(e.func, ast.Attribute) and e.func.attr == "split" and not e.args \
+                and not e.keywords:
+            pre, t, ty = self.ex(e.func.value, env)
+            if ty != "str":
+                fail("split() receiver", e)
+            return pre, "(words %s)" % t, "liststr"
+        if isinstance(e, ast.ListComp) and len(e.generators) == 1 and isinstance(e.generators[0].target, ast.Name) \
+                and not e.generators[0].ifs and isinstance(e.elt, ast.Call) and isinstance(e.elt.func, ast.Attribute) \
+                and e.elt.func.attr == "upper" and isinstance(e.elt.func.value, ast.Name) \
+                and e.elt.func.value.id == e.generators[0].target.id and not e.elt.args:
+            pre, t, ty = self.ex(e.generators[0].iter, env)
+            if ty != "liststr":
+                fail("comprehension source", e)
+            return pre, "(map upper %s)" % t, "liststr"
+        return Fn.ex(self, e, env)
+
+    # ---- statements
+    def state_names(self, env):
+        return [n for n in env if n.startswith("rset#")]
+
+    def mutated(self, stmts, env):
+        out = []
+        for n in ast.walk(ast.Module(body=list(stmts), type_ignores=[])):
+            nm = None
+            if isinstance(n, ast.Name) and isinstance(n.ctx, ast.Store):
+                nm = n.id
+            elif isinstance(n, ast.Call) and isinstance(n.func, ast.Attribute) and isinstance(n.func.value, ast.Name):
+                if n.func.attr in ("append", "extend"):
+                    nm = n.func.value.id
+                elif n.func.value.id == "rset" and n.func.attr in RSET_METHODS:
+                    nm = RSET_METHODS[n.func.attr][0]
+            if nm is not None and nm not in out:
+                out.append(nm)
+        return out
+
+    def comp(self, stmts, env, k):
+        if not stmts:
+            return k(env)
+        s, rest = stmts[0], stmts[1:]
+
+        def cont(e2):
+            return self.comp(rest, e2, k)
+        # idioms spanning a whole statement
+        if isinstance(s, ast.If) and len(s.orelse) == 1 and same_ast(s.body, UNFOLD_IDIOM) \
+                and same_ast(s.orelse, "lines = s.split()") and isinstance(s.test, ast.Name) and env[s.test.id][1] == "bool":
+            v = self.fresh("lines")
+            env2 = dict(env)
+            env2["lines"] = (v, "liststr")
+            return "(let %s := (if %s then unfold_lines (splitlines %s) [] else words %s) in %s)" % (
+                v, env[s.test.id][0], env["s"][0], env["s"][0], cont(env2))
+        if same_ast([s], TZID_IDIOM):
+            v = self.fresh("names")
+            env2 = dict(env)
+            env2["TZID_NAMES"] = (v, "names")
+            return "(let %s := tzid_findall (join [10] %s) in %s)" % (v, env["lines"][0], cont(env2))
+        if same_ast([s], LAZY_IMPORT2):
+            return cont(env)
+        if isinstance(s, ast.Continue):
+            return k(env)
+        if isinstance(s, ast.If):
+            body_assign = all(isinstance(b, ast.Assign) and len(b.targets) == 1 and isinstance(b.targets[0], ast.Name)
+                              and isinstance(b.value, ast.Constant) and isinstance(b.value.value, bool) for b in s.body)
+            if body_assign and not s.orelse:
+                c = self.bexp(s.test, env)
+                env2 = dict(env)
+                lets = []
+                for b in s.body:
+                    n = b.targets[0].id
+                    if env.get(n, (0, 0))[1] != "bool":
+                        fail("re-binding of a non-boolean", b)
+                    v = self.fresh(n)
+                    lets.append("let %s := (if %s then %s else %s) in " % (v, c, "true" if b.value.value else "false", env[n][0]))
+                    env2[n] = (v, "bool")
+                return "(" + "".join(lets) + cont(env2) + ")"
+            if len(s.body) == 1 and isinstance(s.body[0], ast.Raise) and not s.orelse:
+                return "(if %s then GExc %s else %s)" % (self.bexp(s.test, env), self.exc_of(s.body[0]), cont(env))
+            if len(s.body) == 1 and isinstance(s.body[0], ast.Continue) and not s.orelse:
+                return "(if %s then %s else %s)" % (self.bexp(s.test, env), k(env), cont(env))
+            # if <no ':'>: name = <const>; value = line  else: name, value = line.split(':', 1)
+            j = self.join_split(s, env)
+            if j is not None:
+                term, a, b, na, nb = j
+                env2 = dict(env)
+                env2[na] = (a, "str")
+                env2[nb] = (b, "str")
+                return "(match %s with Some (%s, %s) => %s | None => GExc XValue end)" % (term, a, b, cont(env2))
+            # rset.rdate(dtstart) guarded by `compatible and dtstart`
+            if not s.orelse and isinstance(s.test, ast.BoolOp) and isinstance(s.test.op, ast.And) \
+                    and isinstance(s.test.values[-1], ast.Name) and env.get(s.test.values[-1].id, (0, 0))[1] == "optdt":
+                d = s.test.values[-1].id
+                c = " && ".join("(%s)" % self.bexp(v, env) for v in s.test.values[:-1])
+                v = self.fresh(d)
+                env_t = dict(env)
+                env_t[d] = ("(Some %s)" % v, "optdt")
+                env_t[d + "!"] = (v, "dt")
+                a = self.comp(list(s.body) + rest, env_t, k)
+                bb = self.comp(rest, env, k)
+                return "(if %s then match %s with Some %s => %s | None => %s end else %s)" % (c, env[d][0], v, a, bb, bb)
+            c = self.bexp(s.test, env)
+            a = self.comp(list(s.body) + rest, env, k)
+            bb = self.comp(list(s.orelse) + rest, env, k)
+            return "(if %s then %s else %s)" % (c, a, bb)
+        if isinstance(s, ast.Return):
+            v = s.value
+            if isinstance(v, ast.Name) and v.id == "rset" and "rset#rr" in env:
+                return "GOk (RSet %s %s %s %s %s)" % (env["rset#cache"][0], env["rset#rr"][0], env["rset#rd"][0],
+                                                   env["rset#xr"][0], env["rset#xd"][0])
+            pre, t, ty = self.ex(v, env)
+            if ty != "rule":
+                fail("return value", s)
+            return self.wrap(pre, "GOk (RRule %s %s)" % (self.last_cache, t))
+        if isinstance(s, ast.Assign) and len(s.targets) == 1 and isinstance(s.targets[0], ast.Name):
+            n, v = s.targets[0].id, s.value
+            if isinstance(v, ast.List) and not v.elts:
+                env2 = dict(env)
+                env2[n] = ("[]", {"rrulevals": "liststr", "rdatevals": "liststr", "exrulevals": "liststr",
+                                  "exdatevals": "listdt"}.get(n, "emptylist"))
+                return cont(env2)
+            if isinstance(v, ast.Call) and isinstance(v.func, ast.Name) and v.func.id == "rruleset" and not v.args \
+                    and [(kk.arg, getattr(kk.value, "id", None)) for kk in v.keywords] == [("cache", "cache")] and n == "rset":
+                env2 = dict(env)
+                env2["rset#cache"] = (env["cache"][0], "bool")
+                env2["rset#rr"] = ("[]", "listrule")
+                env2["rset#rd"] = ("[]", "listdt")
+                env2["rset#xr"] = ("[]", "listrule")
+                env2["rset#xd"] = ("[]", "listdt")
+                return cont(env2)
+            pre, t, ty = self.ex(v, env)
+            if n == "dtstart" and ty == "dt":
+                t, ty = "(Some %s)" % t, "optdt"
+            nv = self.fresh(n)
+            env2 = dict(env)
+            env2[n] = (nv, ty)
+            return self.wrap(pre, "(let %s := %s in %s)" % (nv, t, cont(env2)))
+        if isinstance(s, ast.Expr) and isinstance(s.value, ast.Call) and isinstance(s.value.func, ast.Attribute) \
+                and isinstance(s.value.func.value, ast.Name) and len(s.value.args) == 1 and not s.value.keywords:
+            obj, m, a = s.value.func.value.id, s.value.func.attr, s.value.args[0]
+            if obj == "rset" and m in RSET_METHODS and "rset#rr" in env:
+                var, want = RSET_METHODS[m]
+                if isinstance(a, ast.Name) and (a.id + "!") in env:
+                    pre, t, ty = [], env[a.id + "!"][0], "dt"
+                else:
+                    pre, t, ty = self.ex(a, env)
+                if ty != want:
+                    fail("rset.%s(%s)" % (m, ty), s)
+                nv = self.fresh("rs")
+                env2 = dict(env)
+                env2[var] = (nv, env[var][1])
+                return self.wrap(pre, "(let %s := %s ++ [%s] in %s)" % (nv, env[var][0], t, cont(env2)))
+            if m in ("append", "extend") and env.get(obj, (0, 0))[1] in ("liststr", "listdt"):
+                pre, t, ty = self.ex(a, env)
+                lty = env[obj][1]
+                if m == "append" and ty != {"liststr": "str", "listdt": "dt"}[lty]:
+                    fail("append of %s to %s" % (ty, lty), s)
+                if m == "extend" and ty != lty:
+                    fail("extend of %s to %s" % (ty, lty), s)
+                nv = self.fresh(obj)
+                env2 = dict(env)
+                env2[obj] = (nv, lty)
+                add = "[%s]" % t if m == "append" else t
+                return self.wrap(pre, "(let %s := %s ++ %s in %s)" % (nv, env[obj][0], add, cont(env2)))
+        if isinstance(s, ast.For):
+            return self.for_(s, rest, env, k)
+        if isinstance(s, (ast.Expr, ast.Global, ast.Raise)):
+            return Fn.comp(self, stmts, env, k)
+        fail("statement outside the accepted subset (_parse_rfc)", s)
+
+    def join_split(self, s, env):
+        """if line.find(c) == -1: a = <const>; b = line  else: a, b = line.split(c, 1)"""
+        if len(s.body) != 2 or len(s.orelse) != 1:
+            return None
+        t = s.test
+        ok = (isinstance(t, ast.Compare) and len(t.ops) == 1 and isinstance(t.ops[0], ast.Eq)
+              and isinstance(t.left, ast.Call) and isinstance(t.left.func, ast.Attribute) and t.left.func.attr == "find"
+              and isinstance(t.left.func.value, ast.Name) and len(t.left.args) == 1 and is_const_str(t.left.args[0], 1)
+              and ast.dump(t.comparators[0]) == ast.dump(ast.parse("-1", mode="eval").body))
+        if not ok:
+            return None
+        x, c = t.left.func.value.id, t.left.args[0].value
+        b1, b2, e1 = s.body[0], s.body[1], s.orelse[0]
+        if not (isinstance(b1, ast.Assign) and isinstance(b1.targets[0], ast.Name) and is_const_str(b1.value)
+                and isinstance(b2, ast.Assign) and isinstance(b2.targets[0], ast.Name) and isinstance(b2.value, ast.Name)
+                and b2.value.id == x and isinstance(e1, ast.Assign) and isinstance(e1.targets[0], ast.Tuple)
+                and [getattr(z, "id", None) for z in e1.targets[0].elts] == [b1.targets[0].id, b2.targets[0].id]
+                and ast.dump(e1.value) == ast.dump(ast.parse("%s.split(%r, 1)" % (x, c), mode="eval").body)
+                and env.get(x, (0, 0))[1] == "str"):
+            return None
+        xt = env[x][0]
+        a, b = self.fresh(b1.targets[0].id), self.fresh(b2.targets[0].id)
+        term = "(if negb (has_char %d %s) then Some (%s, %s) else split1 %d %s)" % (ord(c), xt, lit(b1.value.value), xt, ord(c), xt)
+        return term, a, b, b1.targets[0].id, b2.targets[0].id
+
+    def for_(self, s, rest, env, k):
+        if s.orelse or not isinstance(s.target, ast.Name):
+            fail("for", s)
+        pre, t, ty = self.ex(s.iter, env)
+        ety = {"liststr": "str", "listdt": "dt"}.get(ty)
+        if ety is None:
+            fail("for over " + str(ty), s)
+        # for p in ps: raise X
+        if len(s.body) == 1 and isinstance(s.body[0], ast.Raise):
+            return self.wrap(pre, "(if isnil %s then %s else GExc %s)" % (t, self.comp(rest, env, k), self.exc_of(s.body[0])))
+        # for p in ps: if <test on p>: raise X
+        if len(s.body) == 1 and isinstance(s.body[0], ast.If) and not s.body[0].orelse and len(s.body[0].body) == 1 \
+                and isinstance(s.body[0].body[0], ast.Raise):
+            x = self.fresh(s.target.id)
+            env_b = dict(env)
+            env_b[s.target.id] = (x, ety)
+            c = self.bexp(s.body[0].test, env_b)
+            return self.wrap(pre, "(if forallb (fun %s => negb (%s)) %s then %s else GExc %s)" % (
+                x, c, t, self.comp(rest, env, k), self.exc_of(s.body[0].body[0])))
+        carried = [n for n in self.mutated(s.body, env) if n in env]
+        local = [n for n in self.mutated(s.body, env) if n not in env]
+        bad = [n for n in local + [s.target.id] if reads_before_write(rest, n)]
+        if bad:
+            fail("loop-local names read after the loop: %s" % sorted(bad), s)
+        if not carried:
+            fail("loop without effect", s)
+        x = self.fresh(s.target.id)
+        env_b = dict(env)
+        env_b[s.target.id] = (x, ety)
+        svars = []
+        for n in carried:
+            v = self.fresh(n.replace("#", "_"))
+            svars.append(v)
+            env_b[n] = (v, env[n][1])
+
+        def tup(names):
+            return names[0] if len(names) == 1 else "(" + ", ".join(names) + ")"
+        body = self.comp(list(s.body), env_b, lambda e2: "GOk %s" % tup([e2[n][0] for n in carried]))
+        after = []
+        env2 = dict(env)
+        for n in carried:
+            v = self.fresh(n.replace("#", "_"))
+            after.append(v)
+            env2[n] = (v, env[n][1])
+        st, st2 = self.fresh("st"), self.fresh("st")
+        return self.wrap(pre, "gbind (gfoldM (fun %s %s => let '%s := %s in %s) %s %s) (fun %s => let '%s := %s in %s)" % (
+            st, x, tup(svars), st, body, t, tup([env[n][0] for n in carried]), st2, tup(after), st2, self.comp(rest, env2, k)))
+
+
+def translate_rfc(cls, tables):
+    funcs = {f.name: f for f in cls.body if isinstance(f, ast.FunctionDef)}
+    f = funcs["_parse_rfc"]
+    a = f.args
+    names = [x.arg for x in a.args]
+    if names != ["self", "s", "dtstart", "cache", "unfold", "forceset", "compatible", "ignoretz", "tzids", "tzinfos"] \
+            or [ast.dump(d) for d in a.defaults] != [ast.dump(ast.Constant(value=v)) for v in
+                                                      (None, False, False, False, False, False, None, None)]:
+        fail("_parse_rfc signature / defaults", f)
+    env = {"s": ("s", "str"), "dtstart": ("(o_dtstart o)", "optdt"), "cache": ("(o_cache o)", "bool"),
+           "unfold": ("(o_unfold o)", "bool"), "forceset": ("(o_forceset o)", "bool"),
+           "compatible": ("(o_compatible o)", "bool"), "ignoretz": ("(o_ignoretz o)", "bool"),
+           "tzids": ("tt", "tzids"), "tzinfos": ("tt", "unit")}
+    fn = RfcFn(tables)
+    return fn.comp(list(f.body), env, lambda e2: fail("_parse_rfc falls off its end", f))
+
 # ---------------------------------------------------------------------------------- module level
 
 def find_class(mod, name):
@@ -1120,6 +1546,10 @@ def translate(src):
     t = fn.comp(body, env, lambda e2: fail("_parse_rfc_rrule falls off its end", f))
     out.append("(* returns the keyword dictionary handed to rrule(dtstart=dtstart, cache=cache, **rrkwargs) *)")
     out.append("Definition gen_parse_rfc_rrule (ig : bool) (line : str) : gres kwargs :=\n  %s.\n" % t)
+    out.append("(* self._parse_rfc_rrule(line, dtstart=.., ignoretz=.., tzinfos=..): the dictionary, then rrule(...) = ctor *)")
+    out.append("Definition gen_rule (ev : env) (ig : bool) (line : str) (st : option dt) : gres rule :=\n"
+               "  gbind (gen_parse_rfc_rrule ig line) (fun kw => g_of_res (ctor ev st kw)).\n")
+    out.append("Definition gen_parse_rfc (ev : env) (o : opts) (s : str) : gres result :=\n  %s.\n" % translate_rfc(cls, tables))
     # FREQNAMES and rrule.__str__
     fr = None
     for n in mod.body:
